@@ -190,6 +190,17 @@ def judge(ctx, case, ctext, lam_params, b, inputs, nodes, rec, parsed, msg):
             # a sub-expression inside a comprehension that does not depend on the targets: value under outer bindings
             st_, v = OR.evaluate(key, b, list(b))
             if st_ != "ok":
+                walrus_in_comp = any(
+                    isinstance(sub, ast.NamedExpr) and sub.target.id == key
+                    for comp in ast.walk(ast.parse(ctext, mode="eval"))
+                    if isinstance(comp, (ast.ListComp, ast.SetComp, ast.DictComp, ast.GeneratorExp))
+                    for sub in ast.walk(comp))
+                if kd in inside_comps or walrus_in_comp:
+                    # lexically inside a comprehension and not computable from the outer bindings (it uses a loop
+                    # variable, or it is the target of an assignment expression made there): the oracle does not
+                    # look into comprehension scopes, so the shown value is not judged
+                    ctx.count("not_judged(inside a comprehension, depends on its loop variables)")
+                    continue
                 fail("soundness:unknown-key", "key %r is neither a sub-expression of the condition nor an argument" % key, key)
                 return
             cands.append(v)
